@@ -157,7 +157,11 @@ fn random_value(rng: &mut impl Rng, depth: usize) -> RespValue {
     };
     match rng.gen_range(0..if depth == 0 { 6 } else { 8 }) {
         0 => RespValue::SimpleString(line(rng).into()),
-        1 => RespValue::Error(format!("ERR {}", line(rng)).into()),
+        1 => {
+            // any error code word, also none: an encoder writes the text it is given
+            let code = ["ERR ", "ERR ", "WRONGTYPE ", "NOSCRIPT ", "MYCODE ", "", "BUSY ", "noauth ", "EXECABORT "][rng.gen_range(0..9)];
+            RespValue::Error(format!("{code}{}", line(rng)).into())
+        }
         2 => RespValue::Integer([0, 1, -1, 42, i64::MAX, i64::MIN][rng.gen_range(0..6)]),
         3 => RespValue::BulkString(None),
         4 => RespValue::Array(None),
